@@ -37,7 +37,7 @@ class Job:
                  bound=None, replay=False, fallback=None, config='slack', min_obl=1,
                  entry='harness', checks=None, slice_tag=None, nondet_static=False,
                  note='', assumptions=(), object_bits=None, instrument=(), weight=1,
-                 no_repo_inc=False, sliced=False, split=None, no_std_checks=False, frame_prop=None, stubs=(), special=None, variants=None):
+                 no_repo_inc=False, sliced=False, split=None, no_std_checks=False, frame_prop=None, stubs=(), special=None, variants=None, quick_props=None, all_props=None):
         self.name = name
         self.props = list(props)
         self.engine = engine            # 'A' loop contracts, 'C' loop-free, 'B' bounded
@@ -71,6 +71,8 @@ class Job:
         self.no_repo_inc = no_repo_inc
         self.split = (engine == 'A') if split is None else split
         self.no_std_checks = no_std_checks
+        self.all_props = all_props           # attribute every (non-canary) obligation of the job to these properties
+        self.quick_props = quick_props       # properties for which the job is part of the QUICK tier (default: all of props)
         self.variants = variants             # list of dicts(label, defines, unwind, unwindset): one run each, merged
         self.special = special               # python callable(repo) -> obligations (static-fact jobs)
         self.stubs = list(stubs)             # /verif-relative model/stub sources (cbmc only, not linked into replays)
@@ -480,6 +482,8 @@ def classify(job, ob):
     m = re.match(r'^((?:C\d\d[ ,/]*)+):', desc)
     if m:
         return 'prop', set(re.findall(r'C\d\d', m.group(1)))
+    if job.all_props and not (cls == 'unwind' or 'unwinding assertion' in desc):
+        return 'prop', set(job.all_props)
     hpath = os.path.join(VERIF, job.harness)
     if cls == 'postcondition' or desc.startswith('Check ensures clause'):
         f = ob['file']
